@@ -117,8 +117,10 @@ def step_compare(run, c, obs_list, key, idmap=None, tol_scale=1.0, warmup=False,
         # restores the poses and marks more vertices fixed.  The step must depend on the current state only (no stale linear system).
         want = [bool(v.fixed) for v in listed]
         fixed_idx = [j for j, f in enumerate(want) if f] or [0]
+        grow = run.notes.get('warmup_histories', 0) % 2 == 0
         for j, v in enumerate(listed):
-            v.fixed = (j == fixed_idx[-1])
+            # the fixed set of the earlier call is smaller (it grows afterwards) or larger (vertices are released afterwards)
+            v.fixed = (j == fixed_idx[-1]) if grow else (want[j] or j % 2 == 1)
         try:
             with contextlib.redirect_stdout(io.StringIO()):
                 g.optimize(tol=0.0, max_iter=1, fix_first_pose=False, verbose=False)
